@@ -536,6 +536,53 @@ def door_cache(rep):
                 replay=dict(reproduced=True, detail=p.stdout.strip()[-300:]), replay_script=f"import subprocess\nenv = dict(os.environ); env['PYTHONPATH'] = os.environ.get('VERIF_REPO', {REPO!r})\np = subprocess.run([sys.executable, '-c', {DOORKEY_SRC!r}], env=env, cwd='/')\nsys.exit(p.returncode)\n")
     rep.bounded.append(dict(kind='TypeHint / is_subhint asked about a hint after a look-alike (same repr) hint (bounded stand-in, NOT counted as proved)', scenarios=3, failing=int(p.returncode == 1)))
 
+EXPRKEY_SRC = """
+import sys
+from typing import TypeVar, Generic
+from beartype import beartype
+from beartype.door import is_bearable, die_if_unbearable
+from beartype.roar import BeartypeException
+from beartype._util.cache.utilcacheclear import clear_caches
+T = TypeVar('T')
+bad = []
+def world():
+    class Box(list[T]): pass
+    return Box
+# the answer for one subscription of a user generic does not depend on which OTHER subscription (or the bare class) was asked about before
+for first in ('int', 'str', 'bare', 'none'):
+    Box = world()
+    {'int': lambda: is_bearable(Box([1]), Box[int]), 'str': lambda: is_bearable(Box(['a']), Box[str]), 'bare': lambda: is_bearable(Box([1]), Box), 'none': lambda: None}[first]()
+    got = (is_bearable(Box(['a']), Box[str]), is_bearable(Box(['a']), Box[int]), is_bearable(Box([1]), Box[int]), is_bearable(Box([object()]), Box))
+    if got != (True, False, True, True): bad.append(f'after asking about Box[{first}] first: (Box(strs) vs Box[str], Box(strs) vs Box[int], Box(ints) vs Box[int], Box(any) vs Box) = {got}, expected (True, False, True, True)')
+    @beartype
+    def strict(b: Box[int]) -> None: return None
+    try: strict(Box(['a'])); bad.append(f'after Box[{first}]: a decorated parameter Box[int] accepted a Box of strings')
+    except BeartypeException: pass
+print(bad[:3]); sys.exit(1 if bad else 0)
+"""
+def expr_cache(rep):
+    """the generated-check cache `_HINT_CONF_TO_CHECK_EXPR`: (S) it is keyed by the WHOLE reduced-hint metadata (`hint_sane`: the hint AND what its
+    reduction recorded, e.g. the type-variable bindings of a subscripted generic) and the configuration - two subscriptions of one generic reduce to
+    the same `.hint`; (b) history scenario over subscriptions of a user generic"""
+    import subprocess
+    from pyvc import funcmode, REPO
+    fobj, node, _ = funcmode.load('beartype/_check/code/codemain.py', 'make_check_expr')
+    keys = [a for a in ast.walk(node) if isinstance(a, ast.Assign) and any(isinstance(t, ast.Name) and t.id == 'CACHE_KEY' for t in a.targets)]
+    params = [a.arg for a in node.args.args]
+    def is_param(e, names): return isinstance(e, ast.Name) and e.id in names
+    ok = bool(keys) and all(isinstance(k.value, ast.Tuple) and len(k.value.elts) == 2 and is_param(k.value.elts[0], ('hint_sane',)) and is_param(k.value.elts[1], ('conf',)) and 'hint_sane' in params and 'conf' in params for k in keys)
+    uses = [c for c in ast.walk(node) if isinstance(c, (ast.Subscript, ast.Call)) and any(isinstance(x, ast.Name) and x.id in ('_HINT_CONF_TO_CHECK_EXPR', '_HINT_CONF_TO_CHECK_EXPR_get') for x in ast.walk(c))]
+    uses_ok = all(any(isinstance(x, ast.Name) and x.id == 'CACHE_KEY' for x in ast.walk(u)) for u in uses) and bool(uses)
+    rep.add('C14.check_expr_cache.key_is_the_reduced_hint_and_conf', 'proved' if (ok and uses_ok) else 'refuted', backend='structural',
+            where='make_check_expr reads and fills its cache under CACHE_KEY = (hint_sane, conf) - the whole reduction result, not a projection of it' if (ok and uses_ok) else f'CACHE_KEY = {[ast.unparse(k.value) for k in keys]}; table accesses {[ast.unparse(u)[:60] for u in uses][:3]}')
+    env = dict(os.environ); env['PYTHONPATH'] = REPO
+    p = subprocess.run([sys.executable, '-c', EXPRKEY_SRC], capture_output=True, text=True, timeout=120, env=env, cwd='/')
+    if p.returncode not in (0, 1) or (p.returncode == 1 and not p.stdout.strip().startswith('[')): rep.error('C14 expr_cache harness: ' + (p.stdout + p.stderr)[-600:]); return
+    if p.returncode == 1:
+        rep.add('C14.history.subscriptions_of_one_generic', 'refuted', backend='runtime-contract', bounded=True, where=p.stdout.strip()[-400:], solver_output='bounded run-time contract in a fresh interpreter (not a proof)',
+                replay=dict(reproduced=True, detail=p.stdout.strip()[-300:]), replay_script=f"import subprocess\nenv = dict(os.environ); env['PYTHONPATH'] = os.environ.get('VERIF_REPO', {REPO!r})\np = subprocess.run([sys.executable, '-c', {EXPRKEY_SRC!r}], env=env, cwd='/')\nsys.exit(p.returncode)\n")
+    rep.bounded.append(dict(kind='answers for Box[int] / Box[str] / Box of a user generic in every asking order (bounded stand-in, NOT counted as proved)', scenarios=4, failing=int(p.returncode == 1)))
+
 REPR_SRC = """
 from typing import Annotated
 from beartype.vale import Is
@@ -598,7 +645,7 @@ def main(tier, seed):
     rep = report.Report('C14', tier, seed, 'proof', f'./check C14 --tier {tier}')
     for fn, args in ((memoiser, ('callable_cached', 'beartype/_util/cache/utilcachecall.py', 'callable_cached', '_callable_cached', False)),
                      (memoiser, ('method_cached_arg_by_id', 'beartype/_util/cache/utilcachecall.py', 'method_cached_arg_by_id', '_method_cached', True)),
-                     (cache_unbounded, ()), (structural, ()), (redefinition, ()), (cacheable_flag, ()), (forward_refs, ()), (coerce_transparent, ()), (fwdref_cache, ()), (abc_register, ()), (door_cache, ())):
+                     (cache_unbounded, ()), (structural, ()), (redefinition, ()), (cacheable_flag, ()), (forward_refs, ()), (coerce_transparent, ()), (fwdref_cache, ()), (abc_register, ()), (door_cache, ()), (expr_cache, ())):
         try: fn(rep, *args)
         except Exception: rep.error(f'C14 {fn.__name__}{args[:1]}: ' + traceback.format_exc()[-1800:])
     files = ['beartype/_util/cache/utilcachecall.py', 'beartype/_util/cache/map/utilmapunbounded.py', 'beartype/_util/cache/utilcacheclear.py', 'beartype/_decor/_type/decortype.py']
